@@ -9,17 +9,29 @@ Local Opaque dec pad0.
 (* ------------------------------------------------------------------ offset bookkeeping *)
 
 (* an in-use entry x locates its object in f *)
-Definition locates (e : eolk) (f : list N) (x : ent) : Prop :=
-  e_free x = false /\ exists rest, dropN (e_a x) f = obj_header e (e_nr x) (e_b x) ++ rest.
+Definition locates_g (e : eolk) (f : list N) (x : ent) (g : N) : Prop :=
+  e_free x = false /\ exists rest, dropN (e_a x) f = obj_header e (e_nr x) g ++ rest.
+Definition locates (e : eolk) (f : list N) (x : ent) : Prop := locates_g e f x (e_b x).
+(* what the writer records for object o: number, the TABLE generation, and an offset that is the position
+   of "<nr> <header generation> obj" *)
+Definition recorded (e : eolk) (f : list N) (o : obj) (x : ent) : Prop :=
+  e_nr x = o_nr o /\ e_b x = o_xgen o /\ locates_g e f x (o_gen o).
+Definition gens_agree (os : list obj) : bool := forallb (fun o => o_xgen o =? o_gen o) os.
+
+Lemma recorded_locates e f os tbl : Forall2 (recorded e f) os tbl -> gens_agree os = true -> Forall (locates e f) tbl.
+Proof.
+  induction 1 as [|o x os tbl (Hn & Hb & Hl) _ IH]; intros G; [constructor|].
+  cbn in G. apply andb_true_iff in G. destruct G as [G1 G2]. apply N.eqb_eq in G1.
+  constructor; [|apply IH; exact G2]. unfold locates. rewrite Hb, G1. exact Hl.
+Qed.
 
 (* THE invariant: the separately kept counter equals the number of bytes emitted so far, hence every
    offset recorded by SetWriteOffset is the position of that object's "n g obj". *)
 Lemma write_objs_inv e : forall os off pre post bytes off' tbl,
   write_objs e off os = (bytes, off', tbl) -> off = lenN pre ->
   off' = lenN (pre ++ bytes) /\
-  Forall (locates e (pre ++ bytes ++ post)) tbl /\
-  Forall (fun x => e_a x <= off') tbl /\ off <= off' /\
-  map e_nr tbl = map o_nr os /\ map e_b tbl = map o_gen os.
+  Forall2 (recorded e (pre ++ bytes ++ post)) os tbl /\
+  Forall (fun x => e_a x <= off') tbl /\ off <= off'.
 Proof.
   induction os as [|o r IH]; intros off pre post bytes off' tbl H Hoff; cbn [write_objs] in H.
   - inversion H; subst. rewrite app_nil_r. repeat split; try constructor. lia.
@@ -29,20 +41,19 @@ Proof.
     set (h := obj_header e (o_nr o) (o_gen o)) in *.
     set (tr := obj_trailer e) in *.
     specialize (IH _ (pre ++ h ++ o_body o ++ tr) post _ _ _ E).
-    destruct IH as (IH1 & IH2 & IH3 & IH4 & IH5 & IH6).
+    destruct IH as (IH1 & IH2 & IH3 & IH4).
     { rewrite !lenN_app. lia. }
     assert (EQ : forall z, (pre ++ h ++ o_body o ++ tr) ++ b ++ z = pre ++ (h ++ o_body o ++ tr ++ b) ++ z).
     { intros z. repeat rewrite <- app_assoc. reflexivity. }
     repeat split.
     + rewrite IH1. f_equal. repeat rewrite <- app_assoc. reflexivity.
     + constructor.
-      * split; [reflexivity|]. cbn [e_a e_nr e_b]. exists (o_body o ++ tr ++ b ++ post).
+      * split; [reflexivity|]. split; [reflexivity|]. split; [reflexivity|].
+        cbn [e_a e_nr e_b]. exists (o_body o ++ tr ++ b ++ post).
         rewrite Hoff, dropN_app. repeat rewrite <- app_assoc. reflexivity.
       * rewrite <- EQ. exact IH2.
     + constructor; [cbn [e_a]; lia|exact IH3].
     + lia.
-    + cbn [map e_nr]. f_equal. exact IH5.
-    + cbn [map e_b]. f_equal. exact IH6.
 Qed.
 
 (* ------------------------------------------------------------------ the end of the file *)
@@ -134,6 +145,8 @@ Record wf (i : input) : Prop := {
   wf_vmin : i_vmin i < 10;
   (* the entries taken from the xref table's free objects are free entries *)
   wf_frees : forallb e_free (i_frees i) = true;
+  (* each object's table generation equals the generation printed in its "n g obj" line *)
+  wf_gens : gens_agree (i_objs i) = true;
   (* "%010d" / "%05d" do not overflow their fields: the file is shorter than 10^10 bytes, free links
      and generation numbers are below 10^10 resp. 10^5 *)
   wf_bounded : Forall bounded (xents i);
@@ -152,7 +165,7 @@ Proof.
 Qed.
 
 Lemma body_of_spec i bytes off tbl post : body_of i = (bytes, off, tbl) ->
-  off = lenN bytes /\ Forall (locates (i_eol i) (bytes ++ post)) tbl /\
+  off = lenN bytes /\ Forall2 (recorded (i_eol i) (bytes ++ post)) (i_objs i) tbl /\
   exists b0, bytes = header_bytes (i_eol i) (i_vmaj i) (i_vmin i) ++ b0.
 Proof.
   unfold body_of. intros H.
@@ -201,7 +214,8 @@ Proof.
   apply forallb_forall. intros x Hin. apply (locates_entry (i_eol i)).
   destruct (xents_in i bytes off tbl x Eb Hin) as [Hf|Hu].
   - left. pose proof (wf_frees i W) as Hfr. rewrite forallb_forall in Hfr. apply Hfr. exact Hf.
-  - right. rewrite Forall_forall in Hloc. apply Hloc. exact Hu.
+  - right. pose proof (recorded_locates _ _ _ _ Hloc (wf_gens i W)) as Hl.
+    rewrite Forall_forall in Hl. apply Hl. exact Hu.
 Qed.
 
 Lemma size_is_max_plus_one i : wf i -> i_size i = N.succ (last_nr 0 (xents i)).
@@ -247,7 +261,7 @@ Qed.
 Theorem offsets_exact i :
   let '(bytes, off, tbl) := body_of i in
   off = lenN bytes /\
-  Forall (locates (i_eol i) (layout i)) tbl /\
+  Forall2 (recorded (i_eol i) (layout i)) (i_objs i) tbl /\
   dropN off (layout i) = xref_section (i_eol i) (xents i) (i_tpre i) (i_size i) off.
 Proof.
   destruct (body_of i) as [[bytes off] tbl] eqn:Eb.
